@@ -209,9 +209,13 @@ class ArrayUnionMatcher(CombinationMatcher):
         if self._max_quality is None and self.supports_block_quality():
             # The sub-matchers are read ahead (and may already be exhausted
             # when someone asks), so take their bounds before reading
-            self._max_quality = sum(m.max_quality() for m
-                                    in self._submatchers
-                                    if m.is_active()) * self._boost
+            if self._scored:
+                self._max_quality = sum(m.max_quality() for m
+                                        in self._submatchers
+                                        if m.is_active()) * self._boost
+            else:
+                # Unscored: every matching document gets the value 1
+                self._max_quality = 1.0
 
         scored = self._scored
         boost = self._boost
